@@ -57,13 +57,16 @@ func runC30(r *Run) {
 	for _, b := range backends {
 		n := normBackend(b)
 		if _, ok := beh[n]; !ok {
-			beh[n] = []int{0, 0, 1, 1, 2}[r.F.Pick(5)]
+			beh[n] = []int{0, 0, 1, 1, 2, 3}[r.F.Pick(6)] // 3: the link breaks right after the relayed handshake
 		}
 	}
 	open := 0
 	for _, b := range pool {
 		n := normBackend(b)
 		lb := &liteBackend{Refuse: beh[n] == 1, Hang: beh[n] == 2}
+		if beh[n] == 3 {
+			lb.FailGateWriteAt = int64(len(handshakeFrame(763, "any.host", 25565, 2))) + 1
+		}
 		lb.OnConn = func(bc *liteBackendConn) {
 			open++
 			bc.readAll()
@@ -74,6 +77,10 @@ func runC30(r *Run) {
 		w.backend[n] = lb
 	}
 	nClients := 1 + r.W.Pick(6)
+	var pipelined []byte // login bytes in the same segment as the handshake: the proxy has to flush them to the backend first
+	if r.W.Pick(2) == 0 {
+		pipelined = []byte{9, 0, 7, 'P', 'l', 'a', 'y', 'e', 'r', '1'}
+	}
 	sequentialClients := r.W.Pick(2) == 0 // no overlap: needed for the exact round-robin oracle
 	type attempt struct {
 		gid    string
@@ -91,7 +98,7 @@ func runC30(r *Run) {
 			c := w.connect(fmt.Sprintf("172.31.0.%d", i+1))
 			attempts[i].gid = fmt.Sprintf("a:lhandleconn%d", c.idx)
 			r.Op("connect")
-			_, _ = c.conn.Write(handshakeFrame(763, "any.host", 25565, 2))
+			_, _ = c.conn.Write(append(handshakeFrame(763, "any.host", 25565, 2), pipelined...))
 			simrt.Go(func() { c.readAll() })
 			simrt.Sleep(stay, "c30.stay")
 			_ = c.conn.Close()
@@ -114,7 +121,7 @@ func runC30(r *Run) {
 				c := w.connect(fmt.Sprintf("172.31.0.%d", i+1))
 				attempts[i].gid = fmt.Sprintf("a:lhandleconn%d", c.idx)
 				r.Op("connect")
-				_, _ = c.conn.Write(handshakeFrame(763, "any.host", 25565, 2))
+				_, _ = c.conn.Write(append(handshakeFrame(763, "any.host", 25565, 2), pipelined...))
 				simrt.Go(func() { c.readAll() })
 				simrt.Sleep(time.Duration(1+r.W.Pick(100))*time.Millisecond, "c30.stay")
 				// wait until this attempt's dials are over (hang = 5 s timeout each)
@@ -237,6 +244,11 @@ func runC30(r *Run) {
 			}
 		}
 	}
+	// (Not asserted: that every accepting backend gets its turn when others fail. On the
+	// unchanged tree the shared rotation index is advanced by retries over a shrinking
+	// candidate list, and a list such as [A, dead, B, dead] serves A for ever and never B -
+	// recorded as an observation in DESIGN.md 12.5; the property fixes the rotation only
+	// "across connections", which is checked above when every backend accepts.)
 	// counts
 	if open != 0 {
 		r.Fail("backend-links-left-open", "count", "%d forwarded backend links are still open after all clients closed: %s", open, desc())
@@ -305,6 +317,7 @@ func runC30LeastConnections(r *Run) {
 		return m
 	}
 	done := false
+	counterMismatch := ""
 	rounds := 2 + r.W.Pick(8)
 	w.s.GoNamed("lc-script", func() {
 		defer func() { done = true }()
@@ -317,19 +330,29 @@ func runC30LeastConnections(r *Run) {
 			rest()
 			// the same instant: a (alone on its backend) closes while b connects
 			r.Op("close-while-connecting")
-			ja, jb := r.W.Pick(120), r.W.Pick(120) // where in each other's processing the two meet
-			simrt.Go(func() {
-				for i := 0; i < ja; i++ {
-					simrt.Yield("c30.lc-jitter")
-				}
-				_ = a.c.conn.Close()
-				a.open = false
-			})
+			// The proxy notices the close at the next poll tick of its blocked read (200 us of
+			// simulated time); the new connection is processed within the instant it arrives.
+			// Put both into the same instant and let the tape decide where in each other's
+			// processing they meet.
+			jb, ticks := r.W.Pick(300), r.W.Pick(3)
+			_ = a.c.conn.Close()
+			a.open = false
+			if ticks > 0 {
+				simrt.Sleep(time.Duration(ticks)*200*time.Microsecond, "c30.lc-tick")
+			}
 			for i := 0; i < jb; i++ {
 				simrt.Yield("c30.lc-jitter")
 			}
 			connect()
 			rest()
+			// at rest the per-backend counters must equal the links that are open
+			if sm := w.p.Lite().StrategyManager(); sm != nil && counterMismatch == "" {
+				for _, b := range backends {
+					if c := int(sm.GetOrCreateCounter(b).Load()); c != openBy[b] {
+						counterMismatch = fmt.Sprintf("round %d, after a close coincided with a connect: the least-connections counter of %s is %d, %d links to it are open (all: %v)", round, b, c, openBy[b], snapshot())
+					}
+				}
+			}
 			// at rest: three more, one by one
 			for k := 0; k < 3; k++ {
 				before := snapshot()
@@ -355,6 +378,10 @@ func runC30LeastConnections(r *Run) {
 	}
 	w.s.RunUntil(5*time.Second, nil)
 	if r.CheckDeadlock() {
+		return
+	}
+	if counterMismatch != "" {
+		r.Fail("least-connections-counter-wrong", "phased", "%s", counterMismatch)
 		return
 	}
 	for _, p := range atRest {
